@@ -61,11 +61,12 @@ Lemma s_req_ids_sent st b req rep st' w res :
   s_alive st = true /\ 0 <= req <= 65535 /\ 0 <= ack_count st <= 65535
   /\ w = WReqIds b (ack_count st) req.
 Proof.
-  unfold s_req_ids. destruct (s_alive st); cbn [negb]; [|discriminate].
+  unfold s_req_ids.
   destruct (Z.ltb_spec req 0); [discriminate|].
   destruct (Z.gtb_spec req max_request_count); [discriminate|].
   destruct (Z.ltb_spec (ack_count st) 0); [discriminate|].
   destruct (Z.gtb_spec (ack_count st) max_ack_count); [discriminate|].
+  destruct (s_alive st); cbn [negb]; [|discriminate].
   pose proof max_ack_u16. pose proof max_req_u16.
   intros E. assert (W : w = WReqIds b (u16 (ack_count st)) (u16 req)).
   { destruct rep; [destruct (answer_allowed b msg_reply_tx_ids)|destruct (answer_allowed b msg_done)];
@@ -77,11 +78,12 @@ Lemma s_req_ids_none st b req rep st' res :
   s_req_ids st b req rep = (st', None, res) ->
   st' = st /\ (res = RDown \/ res = RExceeded).
 Proof.
-  unfold s_req_ids. destruct (s_alive st); cbn [negb]; [|intros E; inversion E; auto].
+  unfold s_req_ids.
   destruct (req <? 0); [intros E; inversion E; auto|].
   destruct (req >? max_request_count); [intros E; inversion E; auto|].
   destruct (ack_count st <? 0); [intros E; inversion E; auto|].
   destruct (ack_count st >? max_ack_count); [intros E; inversion E; auto|].
+  destruct (s_alive st); cbn [negb]; [|intros E; inversion E; auto].
   destruct rep; [destruct (answer_allowed b msg_reply_tx_ids)|destruct (answer_allowed b msg_done)]; discriminate.
 Qed.
 
@@ -97,6 +99,7 @@ Proof.
     unfold max_request_count, max_ack_count.
     destruct (Z.ltb_spec req 0); [lia|]. destruct (Z.gtb_spec req 65535); [lia|].
     destruct (Z.ltb_spec (ack_count st) 0); [lia|]. destruct (Z.gtb_spec (ack_count st) 65535); [lia|].
+    cbn [negb].
     destruct rep; [destruct (answer_allowed b msg_reply_tx_ids)|destruct (answer_allowed b msg_done)]; cbn; eauto.
 Qed.
 
@@ -104,7 +107,7 @@ Qed.
 Lemma s_req_ids_overlong st b req rep : s_alive st = true -> ack_count st > 65535 ->
   s_req_ids st b req rep = (st, None, RExceeded).
 Proof.
-  intros A K. unfold s_req_ids. rewrite A. cbn [negb].
+  intros A K. unfold s_req_ids.
   destruct (req <? 0); [reflexivity|]. destruct (req >? max_request_count); [reflexivity|].
   destruct (Z.ltb_spec (ack_count st) 0); [reflexivity|].
   unfold max_ack_count. destruct (Z.gtb_spec (ack_count st) 65535); [reflexivity|lia].
@@ -119,9 +122,10 @@ Lemma s_req_ids_state st b req rep st' w res :
   | RExceeded | ROther => False
   end.
 Proof.
-  unfold s_req_ids. destruct (s_alive st); cbn [negb]; [|discriminate].
+  unfold s_req_ids.
   destruct (req <? 0); [discriminate|]. destruct (req >? max_request_count); [discriminate|].
   destruct (ack_count st <? 0); [discriminate|]. destruct (ack_count st >? max_ack_count); [discriminate|].
+  destruct (s_alive st); cbn [negb]; [|discriminate].
   destruct rep as [n|].
   - destruct (answer_allowed b msg_reply_tx_ids); intros E; inversion E; subst; cbn; auto.
   - destruct (answer_allowed b msg_done) eqn:A; intros E; inversion E; subst; cbn; auto.
@@ -135,7 +139,8 @@ Proof.
   cbn [s_run]. destruct (s_step st o) as [[st1 w] res] eqn:E.
   destruct (s_run st1 r) as [evs st2] eqn:E2. cbn [fst].
   assert (st1 = st /\ w = None) as [-> ->].
-  { destruct o; cbn [s_step] in E; unfold s_req_ids, s_req_txs in E; rewrite D in E; cbn [negb] in E; inversion E; auto. }
+  { destruct o; cbn [s_step] in E; unfold s_req_ids, s_req_txs in E; rewrite D in E; cbn [negb] in E;
+      repeat match type of E with (if ?c then _ else _) = _ => destruct c end; inversion E; auto. }
   unfold trace. cbn [flat_map ev_trace app]. fold (trace evs).
   specialize (IH st D). rewrite E2 in IH. exact IH.
 Qed.
